@@ -36,7 +36,7 @@ LEVEL_TEXT = (
 LEVEL_NOTE = "Trusts hashlib.md5, CPython float repr, and the harness's own canonical encoder (cross-validated against json.dumps on every value)."
 CLASSES = [
     "nested", "unicode", "float_nonint", "float_intvalued", "bool_int_mix",
-    "tuple_spelling", "synced_wrapper", "key_perm>=3", "cross_process", "golden", "alias", "alias_synced", "bulk_cache", "rekey_then_reopen_by_id",
+    "tuple_spelling", "synced_wrapper", "key_perm>=3", "cross_process", "golden", "alias", "alias_synced", "bulk_cache", "rekey_then_reopen_by_id", "moved_to_other_project_before_edit",
 ]
 ASSUMPTIONS = [
     "md5 collisions do not occur within the explored space",
@@ -370,6 +370,17 @@ def run_case(case, ctx):
             dict(job.cached_statepoint)
             repr(job)
             cl.append("view_read_before_edit")
+        if case.get("moved"):
+            # the job is moved into another project through this handle first; everything below then happens there
+            d_new = ctx.tmpdir("c01m")
+            dest = _s.init_project(d_new)
+            try:
+                job.move(dest)
+            except Exception as exc:
+                mms.append(Mismatch("unexpected_exception", f"job.move() of {sp!r} into an empty project raised {type(exc).__name__}: {exc}"))
+            else:
+                d, p2 = d_new, dest
+                cl.append("moved_to_other_project_before_edit")
         cur = json.loads(json.dumps(sp))
         import contextlib
         import copy as _copy
@@ -651,6 +662,7 @@ def run(ctx):
         "copies": st.sampled_from([0, 0, 1, 2, 3]),
         "chain": st.booleans(),
         "in_context": st.sampled_from([False, False, True]),
+        "moved": st.sampled_from([False, False, False, True]),
         "transient": st.sampled_from([None, None, "missing", "torn"]),
     })
     drive(ctx, hist_st, 100 if ctx.tier == "quick" else 800, ctx.apply)
